@@ -438,6 +438,71 @@ fn macro_cases(ctx: &Ctx) {
                 }
             }
         }
+        // (c) the target arrives as a macro parameter (pc-relative text or a label), the macro sits in a
+        // taken conditional branch, and is called at three different addresses; both limits and the
+        // first unreachable displacement on either side
+        for (d, lead) in [-h - 1, -h, -1, 0, 1, h - 1, h].into_iter().flat_map(|d| [0usize, 1, 2].into_iter().map(move |l| (d, l))) {
+            let fits = d >= -h && d < h;
+            let t = d + 1;
+            let pcrel = if t >= 0 { format!("pc+{}", t) } else { format!("PC-{}", -t) };
+            // (`lead` instructions in front of the branch inside the body: the branch is not at the address of the call)
+            let body = format!("{}{}", "\tnop\n".repeat(lead), if form.ops.len() == 2 { format!("\t{} {}, @0", form.mn, flag) } else { format!("\t{} @0", form.mn) });
+            // pc-relative argument: every copy has the same displacement
+            let src = format!("; C03 macro parameter case\n.equ enabled = 1\n.if enabled\n.macro jp\n{}\n.endm\n.endif\n\tnop\n\tjp {}\n\tnop\n.if enabled\n\tjp {}\n.else\n\tjp pc\n.endif\n\tjp {}\n\tnop\n", body, pcrel, pcrel, pcrel);
+            let vals: Vec<i64> = if form.ops.len() == 2 { vec![flag, d] } else { vec![d] };
+            let mut expect = vec![0u8, 0];
+            if fits {
+                let mut w = vec![0u8; lead * 2];
+                w.extend(isa::words_to_bytes(&isa::encode(form, &vals)));
+                expect.extend(&w);
+                expect.extend([0u8, 0]);
+                expect.extend(&w);
+                expect.extend(&w);
+                expect.extend([0u8, 0]);
+            }
+            let out = fw::build_str(&src);
+            ctx.eval(1);
+            ctx.distinct(fw::mix64(0x3AC1 ^ (fi as u64) << 8 ^ (lead as u64) << 20, d as u64));
+            let ok = match &out {
+                Outcome::Ok(b) => fits && b.code == expect,
+                Outcome::Err(_) => !fits,
+                Outcome::Panic(_) => false,
+            };
+            if !ok {
+                ctx.violation(
+                    format!("rel/{}/target-as-macro-parameter/{}", form.name, if fits { "pc-relative" } else { "out-of-range-accepted-or-panic" }),
+                    format!("{} with `{}` passed as macro parameter (d = {}, {}): {}", form.mn, pcrel, d, if fits { "fits" } else { "does not fit" }, fw::clip(&format!("{:?}", out.brief()), 200)),
+                    json!({"source": src, "form": form.name, "flag": flag, "d": d, "fits": fits, "instr_word_addr": 1, "expect_code": fw::hex(&expect, 4096), "observed": out.brief()}),
+                );
+            }
+        }
+        // label argument: a forward and a backward label, each named at two call sites
+        {
+            let body = if form.ops.len() == 2 { format!("\t{} {}, @0", form.mn, flag) } else { format!("\t{} @0", form.mn) };
+            let src = format!("; C03 macro label parameter case\n.macro jp\n{}\n.endm\nback:\n\tnop\n\tjp fwd\n\tjp back\n\tnop\n\tjp fwd\n\tjp back\nfwd:\n\tnop\n", body);
+            // words: 0 nop, 1 jp fwd (T=6), 2 jp back (T=0), 3 nop, 4 jp fwd, 5 jp back, 6 nop
+            let enc = |at: i64, target: i64| -> Vec<u8> {
+                let d = target - (at + 1);
+                let vals: Vec<i64> = if form.ops.len() == 2 { vec![flag, d] } else { vec![d] };
+                isa::words_to_bytes(&isa::encode(form, &vals))
+            };
+            let mut expect = vec![0u8, 0];
+            expect.extend(enc(1, 6));
+            expect.extend(enc(2, 0));
+            expect.extend([0u8, 0]);
+            expect.extend(enc(4, 6));
+            expect.extend(enc(5, 0));
+            expect.extend([0u8, 0]);
+            let out = fw::build_str(&src);
+            ctx.eval(1);
+            if !matches!(&out, Outcome::Ok(b) if b.code == expect) {
+                ctx.violation(
+                    format!("rel/{}/target-as-macro-parameter/label", form.name),
+                    format!("{} with labels passed as macro parameter: {}", form.mn, fw::clip(&format!("{:?}", out.brief()), 200)),
+                    json!({"source": src, "form": form.name, "flag": flag, "d": 4, "fits": true, "instr_word_addr": 1, "expect_code": fw::hex(&expect, 4096), "observed": out.brief()}),
+                );
+            }
+        }
     }
 }
 
@@ -459,7 +524,7 @@ pub fn run(ctx: &Ctx) -> i32 {
     ctx.exhaustive.store(true, std::sync::atomic::Ordering::Relaxed);
     fw::finish(
         ctx,
-        "for each of the 18 br<cond> mnemonics, brbs/brbc x 8 flags, rjmp and rcall: every displacement in the stated window (branches -80..80; rjmp/rcall around both limits and zero, thorough -2100..2100) x filler mixes (nop-only and random mixes of one/two-word instructions, .dw/.db/.dq data, .org gaps) x target spellings (label, label+k, label-k, pc±k) x start addresses; plus far targets: displacements within ±65/±2049 of ±2^k for k up to 40, pc-relative and through labels placed with .org (all must be rejected); and every form inside a one-line macro body expanded several times back to back (pc-relative and label targets); distinct_nontrivial = distinct (mnemonic, flag, displacement) triples",
+        "for each of the 18 br<cond> mnemonics, brbs/brbc x 8 flags, rjmp and rcall: every displacement in the stated window (branches -80..80; rjmp/rcall around both limits and zero, thorough -2100..2100) x filler mixes (nop-only and random mixes of one/two-word instructions, .dw/.db/.dq data, .org gaps) x target spellings (label, label+k, label-k, pc±k) x start addresses; plus far targets: displacements within ±65/±2049 of ±2^k for k up to 40, pc-relative and through labels placed with .org (all must be rejected); and every form inside a one-line macro body expanded several times back to back (pc-relative and label targets), and with the target as a macro parameter (pc-relative text at both limits and one beyond, forward and backward labels; macro defined and called inside taken conditional branches); distinct_nontrivial = distinct (mnemonic, flag, displacement) triples",
         &["distances are realised with reference encodings of the filler items (refmodel/isa.rs); decode by the independent decoder"],
     )
 }
